@@ -823,12 +823,38 @@ func GenC17conv(rng *rand.Rand, thorough bool, emit func(*Sx)) {
 					hello()
 					f.cmd("MAIL FROM:<s@ok>", 250)
 					f.cmd("RCPT TO:<r@ok>", 250)
+					if lmtp {
+						f.cmd("RCPT TO:<second@ok>", 250)
+					}
 					f.cmd("DATA", 354)
 					p := DefaultPlan()
 					p.Ret, p.Prop = e, false
-					f.script.Data = []DataPlan{p}
+					f.script.Data = []DataPlan{p, p}
 					f.raw("a message that is longer than ten octets\r\n.\r\n")
 					f.expect(codeOf(e)) // the backend's own verdict, also when the size limit was hit
+					if lmtp {
+						// one reply per recipient, each with the backend's text behind its own address only
+						f.expect(codeOf(e))
+						if e.Kind == "smtp" {
+							ec := e.EC
+							if ec == [3]int{0, 0, 0} {
+								ec = [3]int{e.Code / 100, 0, 0}
+							}
+							first := strings.Split(e.Msg, "\n")[0]
+							sep := " "
+							if strings.Contains(e.Msg, "\n") {
+								sep = "-"
+							}
+							f.add(L(A("expect-line"), XS(fmt.Sprintf("%d%s%d.%d.%d <second@ok> %s", e.Code, sep, ec[0], ec[1], ec[2], first))))
+						}
+					}
+					// the same again in a second transaction of the connection
+					f.cmd("MAIL FROM:<s2@ok>", 250)
+					f.cmd("RCPT TO:<r@ok>", 250)
+					f.cmd("DATA", 354)
+					f.raw("another message, also longer than ten octets\r\n.\r\n")
+					f.expect(codeOf(e))
+					f.add(L(A("max-line-prefixes"), Num(1)))
 					f.cmd("QUIT", 221)
 				}
 				emit(RunConv(f.caseOf("C17", segStream(rng, f.out, nil, (ei+site)%3, rawEOF))))
